@@ -369,8 +369,26 @@ func TestVerifC39(t *testing.T) {
 		w.st = r.NewScenario(scen, "states")
 		w.st.Params = map[string]any{"type": pl.name, "replicas": pl.reps, "max_updates": pl.L, "max_duplicates": pl.D, "max_fullstate_merges": pl.F}
 		w.st.Bound, w.st.BoundCompleted = 1, 0 // until the event tree is exhausted
-		// equal share of what is left of the wall budget (unused time is inherited)
-		left := c39Budget(start) / time.Duration(len(plans)-k)
+		// share of what is left of the wall budget, proportional to the expected size of the
+		// scenario (3-replica scenarios are about an order of magnitude larger); unused time is inherited
+		weight := func(p plan) int {
+			if p.reps >= 3 {
+				return 8
+			}
+			return 1
+		}
+		rest := 0
+		for _, q := range plans[k:] {
+			rest += weight(q)
+		}
+		total := c39Budget(start)
+		left := total * time.Duration(weight(pl)) / time.Duration(rest)
+		if floor := vsched.Pick(4*time.Second, 40*time.Second); left < floor {
+			left = floor // never cap a small scenario because it comes early
+		}
+		if left > total {
+			left = total
+		}
 		w.run(time.Now().Add(left))
 	}
 }
